@@ -32,12 +32,15 @@ def _c08(prop, tier, replay_path):
             return nhfamily.check_c08_compaction(prop, tier, replay_path)
         if kind == "TestVerifSpsim":
             return c11b.check_jobs(prop, tier, replay_path)
+        if kind == "TestVerifOdsim":
+            return rsmchecks.check_c08_ondisk(prop, tier, replay_path)
         return rsmchecks.check_c08(prop, tier, replay_path)
     a = rsmchecks.check_c08(prop, tier, None)
     b = nhfamily.check_c08_compaction(prop, tier, None)
     c = nhfamily.check_c08_joiners(prop, tier, None)
     d = c11b.check_jobs(prop, tier, None)
-    return 1 if 1 in (a, b, c, d) else max(a, b, c, d)
+    e = rsmchecks.check_c08_ondisk(prop, tier, None)
+    return 1 if 1 in (a, b, c, d, e) else max(a, b, c, d, e)
 
 
 CHECKS["C08"] = _c08
